@@ -84,17 +84,23 @@ pub fn is_panic(e: &str) -> bool {
     e.contains("PANIC: ")
 }
 
-/// Typst text of a value; the trait method and the generic `FormatterTypst::format` entry point must agree
-pub fn typst(n: &Narsese) -> Result<String, String> {
+/// Typst texts of a value through both public routes (the trait method and the generic `FormatterTypst::format`
+/// entry point), without repetitions: every one of them is "the rendering" and is checked by C16
+pub fn typst_routes(n: &Narsese) -> Result<Vec<String>, String> {
     match quiet_catch(AssertUnwindSafe(|| match n {
         Narsese::Term(t) => (t.format_to(&FormatterTypst), FormatterTypst.format(t)),
         Narsese::Sentence(s) => (s.format_to(&FormatterTypst), FormatterTypst.format(s)),
         Narsese::Task(t) => (t.format_to(&FormatterTypst), FormatterTypst.format(t)),
     })) {
-        Ok((a, b)) if a == b => Ok(a),
-        Ok((a, b)) => Err(format!("Typst routes disagree: format_to gives {a:?}, FormatterTypst::format gives {b:?}")),
+        Ok((a, b)) if a == b => Ok(vec![a]),
+        Ok((a, b)) => Ok(vec![a, b]),
         Err(p) => Err(format!("PANIC: {p}")),
     }
+}
+
+/// the text of the trait route (for callers that need one text; both routes are run, so a panic in either shows)
+pub fn typst(n: &Narsese) -> Result<String, String> {
+    typst_routes(n).map(|v| v.into_iter().next().unwrap_or_default())
 }
 
 /// Every public route into the lexical parser agrees on `s`: the method `NarseseFormat::parse`,
